@@ -327,11 +327,33 @@ func c20Binary(e *core.Env) error {
 		oracles = append(oracles, w.projOracle(tFile, 0), w.projOracle(tDash, 0))
 		p.stop()
 		w.grow(1)
-		if p, err = startShovelOn(e, w.url, doc); err != nil {
+		// a name clash in which the FILE's entry is disabled: "paused_ig" is stored (enabled) in the database and the
+		// file the process is started with next lists it with "enabled": false. The file wins: nothing drives it.
+		pausedIG := transferIG("paused_ig", "t3", []string{"block_time"}, nil)
+		rootP := config.Root{Integrations: []config.Integration{pausedIG}}
+		config.ValidateFix(&rootP)
+		tPaused := viewTask(rootP.Integrations[0], 1, 2, 1)
+		if conn, err := w.pool.Acquire(w.ctx); err == nil {
+			config.Migrate(w.ctx, conn, rootP)
+			conn.Exec(w.ctx, `insert into shovel.integrations(name, conf) values ($1, $2)`, "paused_ig", igFileDoc(rootP.Integrations[0], "src1", 1))
+			conn.Release()
+		}
+		doc2 := func(pgurl string) string {
+			var m map[string]any
+			json.Unmarshal([]byte(igFileDoc(rootP.Integrations[0], "src1", 1)), &m)
+			m["enabled"] = false
+			pj, _ := json.Marshal(m)
+			return fmt.Sprintf(`{"pg_url": %q, "dashboard": {"root_password": "x"}, "eth_sources": [{"name": "src1", "chain_id": 7, "url": %q, "poll_duration": "40ms", "batch_size": 2}], "integrations": [%s, %s]}`,
+				pgurl, w.node.URL(), igFileDoc(fileIG, "src1", 1), pj)
+		}
+		if p, err = startShovelOn(e, w.url, doc2); err != nil {
 			verdict = "the shovel binary did not start again: " + err.Error()
 		} else {
 			if verdict == "ok" && !reached(tFile, tDash) {
 				verdict = "after a restart of the process the stored integration and the file's integration do not both reach the head"
+			}
+			if rws, top, has, _ := w.taskRows(tPaused); verdict == "ok" && (has || len(rws) > 0) {
+				verdict = fmt.Sprintf("paused_ig is disabled in the configuration file (and stored enabled in the database): a runner drives it all the same — position %d, %d rows", top, len(rws))
 			}
 			oracles = append(oracles, w.projOracle(tFile, 0), w.projOracle(tDash, 0))
 			p.stop()
